@@ -96,15 +96,17 @@ class Check(PropertyCheck):
                                         str(backend.first_difference(r["impl"], r["model"]))[:600], ""))
         return dis
 
-    def oracle(self, texts):
+    def oracle(self, texts, entries=None):
         fails = []
         envs = common.env_tables(texts)
         scales = [self.rng.choice([8.0, 8.0, 1.0, 0.5, 10.0, 20.0, 37.5]) for _ in texts]
-        lines = ["%d settings scale=%s,b=1,s=0,d=0 %s" % (i, backend.f32bits(scales[i]), hx(t)) for i, t in enumerate(texts)]
+        # every third drawing is rendered from a CellBuffer that was rendered with other settings before ("reuse")
+        entries = entries or ["reuse" if i % 3 == 2 else "settings" for i in range(len(texts))]
+        lines = ["%d %s scale=%s,b=1,s=0,d=0 %s" % (i, entries[i], backend.f32bits(scales[i]), hx(t)) for i, t in enumerate(texts)]
         res = common.run_impl("lib", lines)
         for i, t in enumerate(texts):
             self.evaluations += 1
-            case = {"input": t, "input_hex": hx(t), "scale": scales[i]}
+            case = {"input": t, "input_hex": hx(t), "scale": scales[i], "entry": entries[i]}
             r = res[str(i)]
             if not r.startswith("ok "):
                 fails.append(Failure("conversion did not return", case))
@@ -160,4 +162,4 @@ class Check(PropertyCheck):
         return self.oracle([t for t in texts if "# Legend:" not in t])
 
     def replay_case(self, case):
-        return self.oracle([case["input"]])
+        return self.oracle([case["input"]], [case.get("entry", "settings")])
